@@ -5,7 +5,7 @@
 using namespace nix;
 using namespace vh;
 
-#define N_VICTIMS 17
+#define N_VICTIMS 21
 
 extern "C" void vh_c04_delete() {
     nixsym_declare_reach("checked");
@@ -34,6 +34,10 @@ extern "C" void vh_c04_delete() {
     case 14: DEL3(w.sec_child, w.sec, deleteSection, "child"); break;
     case 15: DEL3(w.b2, w.f, deleteBlock, "blk2"); break;
     case 16: DEL3(w.prop, w.sec, deleteProperty, "temperature"); break;
+    case 17: DEL3(w.src_child2, w.src, deleteSource, "child2"); break;
+    case 18: DEL3(w.tag_u, w.b, deleteTag, UUID_NAME); break;
+    case 19: DEL3(w.da_u, w.b, deleteDataArray, UUID_NAME); break;
+    case 20: DEL3(w.src_leaf, w.src_child2, deleteSource, "leaf"); break;
     }
     nixsym_assert(ok, "delete reports success");
     nixsym_assert(!valid_after, "handle to the deleted entity reports itself invalid");
